@@ -24,6 +24,7 @@ EXPLANATION = (
     "defuzzify together with the value setter interpreted abstractly (sa/absexec.py) on arrays of abstract elements (NaN or symbols) for every "
     "two-call sequence of failing / scalar / batch results under all 16 settings: value, previous value, untouched state on disabled or failing "
     "calls exactly as specified (undecided, not an error, when the code leaves the array model)"
+    "; the cascade is also interpreted under ranges bounded on one side and unbounded (clipping to (-inf, inf) is the identity), with static helpers of other classes inlined"
 )
 ASSUMPTIONS = [
     "numpy.nditer(readwrite) iterates the result in row order; numpy.clip(x, lo, hi) clips to [lo, hi]",
@@ -373,6 +374,9 @@ def cascade_semantics(check: Check) -> None:
     check.analysed(setter)
     node = fn.analysis_node
     NAN = "nan"
+    from .common import static_resolver
+
+    resolver = static_resolver(p)
 
     class Arr:
         """An array of abstract elements (0-d when `zero_d`)."""
@@ -402,6 +406,19 @@ def cascade_semantics(check: Check) -> None:
             return Arr([v.arr.items[v.i]], True)
         return Arr([v], True)
 
+    def clipped(x, lo_, hi_):  # type: ignore[no-untyped-def]
+        """An abstract element limited to [lo_, hi_]: unchanged when NaN or when neither bound is finite; bounds applied one after the other
+        (maximum then minimum) compose to the same thing."""
+        if x == NAN:
+            return x
+        lo0, hi0 = float("-inf"), float("inf")
+        if isinstance(x, tuple) and x and x[0] == "clip":
+            x, lo0, hi0 = x[1], x[2], x[3]
+        if not isinstance(lo_, float) or not isinstance(hi_, float):
+            raise Unknown(f"{fn.qualname}: clipping to something other than the bounds of the range is outside the model of the cascade")
+        lo1, hi1 = max(lo0, lo_), min(hi0, hi_)
+        return x if lo1 == float("-inf") and hi1 == float("inf") else ("clip", x, lo1, hi1)
+
     def np_call(name: str):
         def f(ex_, e, recv, args, kw):
             if name in ("asarray", "array", "atleast_1d", "scalar", "asanyarray"):
@@ -418,14 +435,26 @@ def cascade_semantics(check: Check) -> None:
                 return elems(v)[0] == NAN
             if name == "isfinite":
                 v = args[0]
+                fin = lambda x: (x == x and abs(x) != float("inf")) if isinstance(x, float) else x != NAN  # noqa: E731
                 if isinstance(v, Arr) and not v.zero_d:
-                    return Arr([x != NAN for x in v.items])
-                return elems(v)[0] != NAN
+                    return Arr([fin(x) for x in v.items])
+                return fin(elems(v)[0])
+            if name == "isinf":
+                v = args[0]
+                inf_ = lambda x: isinstance(x, float) and abs(x) == float("inf")  # noqa: E731
+                if isinstance(v, Arr) and not v.zero_d:
+                    return Arr([inf_(x) for x in v.items])
+                return inf_(elems(v)[0])
             if name == "nditer":
                 return ("nditer", as_arr(args[0]))
-            if name == "clip":
+            if name in ("clip", "minimum", "maximum", "fmin", "fmax"):
                 a = as_arr(args[0])
-                return Arr([x if x == NAN else ("clip", x) for x in a.items], a.zero_d)
+                if name == "clip":
+                    lo_, hi_ = (list(args[1:3]) + [kw.get("a_min", kw.get("min")), kw.get("a_max", kw.get("max"))])[:2] if len(args) >= 3 else \
+                        (kw.get("a_min", kw.get("min", args[1] if len(args) > 1 else None)), kw.get("a_max", kw.get("max")))
+                    return Arr([clipped(x, lo_, hi_) for x in a.items], a.zero_d)
+                other = elems(args[1])[0]
+                return Arr([clipped(x, other if name in ("maximum", "fmax") else float("-inf"), other if name in ("minimum", "fmin") else float("inf")) for x in a.items], a.zero_d)
             if name == "where" and len(args) == 3:
                 m, a, b = as_arr(args[0]), as_arr(args[1]), as_arr(args[2])
                 n_ = max(len(m.items), len(a.items), len(b.items))
@@ -463,7 +492,7 @@ def cascade_semantics(check: Check) -> None:
     bad: dict[str, str] = {}
     cases = 0
 
-    def expected(state, batch, cfg):
+    def expected(state, batch, cfg, bounds):
         value, prev = state
         enabled, lockp, default, lockr = cfg
         if not enabled:
@@ -485,15 +514,17 @@ def cascade_semantics(check: Check) -> None:
         if default != NAN:
             out = [default if x == NAN else x for x in out]
         if lockr:
-            out = [x if x == NAN else ("clip", x) for x in out]
+            out = [clipped(x, bounds[0], bounds[1]) for x in out]
         return (out, last), None
 
     try:
         for enabled, lockp, default, lockr in itertools.product((True, False), (True, False), (NAN, "dflt"), (True, False)):
             cfg = (enabled, lockp, default, lockr)
-            for seq in itertools.product(batches, repeat=2):
+            # the range matters only under lock-range: bounded, bounded on one side, unbounded
+            ranges = [(0.0, 1.0), (0.0, float("inf")), (float("-inf"), 1.0), (float("-inf"), float("inf"))] if lockr else [(0.0, 1.0)]
+            for bounds, seq in itertools.product(ranges, itertools.product(batches, repeat=2)):
                 cases += 1
-                obj = MObj("OutputVariable", {"enabled": enabled, "lock_previous": lockp, "default_value": default, "lock_range": lockr, "minimum": "lo", "maximum": "hi",
+                obj = MObj("OutputVariable", {"enabled": enabled, "lock_previous": lockp, "default_value": default, "lock_range": lockr, "minimum": bounds[0], "maximum": bounds[1],
                                               "name": Opaque("name"), "fuzzy": MObj("Aggregated", {"terms": ["activation"]}), "previous_value": NAN,
                                               "_value": Arr([NAN], True)})
                 state = ([NAN], NAN)
@@ -508,10 +539,12 @@ def cascade_semantics(check: Check) -> None:
                 obj.fields["defuzzifier"] = MObj("Defuzzifier", {})
                 hooks = {"method:defuzzify": defuzzify, "setitem": setitem, "enter": enter, "scalar": lambda ex_, e, args, kw: as_arr(args[0]),
                          "array": lambda ex_, e, args, kw: as_arr(args[0])}
-                for nm in ("asarray", "array", "atleast_1d", "asanyarray", "take", "astype", "copy", "squeeze", "isnan", "isfinite", "nditer", "clip", "where", "full_like"):
+                for nm in ("asarray", "array", "atleast_1d", "asanyarray", "take", "astype", "copy", "squeeze", "isnan", "isfinite", "isinf", "nditer", "clip", "minimum", "maximum", "fmin", "fmax",
+                           "where", "full_like"):
                     hooks[f"method:{nm}"] = np_call(nm)
                 ex = AbsExec(fn.qualname, hooks, helpers={k: v for k, v in fn.cls.methods.items() if k.startswith("_") and not k.startswith("__")})
                 ex.properties[("OutputVariable", "value")] = (getter, setter)
+                ex.static_resolver = resolver
                 ex.iterate_hook = lambda v: [Ref(v[1], i) for i in range(len(v[1].items))] if isinstance(v, tuple) and v and v[0] == "nditer" else None  # type: ignore[attr-defined]
                 k = 0
                 names = iter("abcdefgh")
@@ -521,6 +554,8 @@ def cascade_semantics(check: Check) -> None:
                     script[:] = [b]
                     env = {"self": obj, "np": Opaque("np"), "nan": NAN}
                     pv0 = obj.fields["previous_value"]
+                    if not isinstance(obj.fields["_value"], Arr):
+                        raise Unknown(f"{fn.qualname}: the value stored by the setter is outside the model of the cascade ({type(obj.fields['_value']).__name__})")
                     before = (list(obj.fields["_value"].items), pv0.items[0] if isinstance(pv0, Arr) else pv0, list(obj.fields["fuzzy"].fields["terms"]))
                     try:
                         ex.block(list(node.body), env)
@@ -531,8 +566,9 @@ def cascade_semantics(check: Check) -> None:
                         outcome = r_.cls
                     except Internal as i_:
                         outcome = f"internal {i_.cls} ({i_.why})"
-                    state, want_exc = expected(state, b, cfg)
-                    what = (f"enabled={enabled}, lock-previous={lockp}, default={'set' if default != NAN else 'nan'}, lock-range={lockr}; call {k} of "
+                    state, want_exc = expected(state, b, cfg, bounds)
+                    what = (f"enabled={enabled}, lock-previous={lockp}, default={'set' if default != NAN else 'nan'}, lock-range={lockr}"
+                            + (f" with range [{bounds[0]}, {bounds[1]}]" if lockr else "") + f"; call {k} of "
                             f"{[('fails' if x is None else list(x)) for x in seq]}")
                     got_v = list(obj.fields["_value"].items) if isinstance(obj.fields["_value"], Arr) else [obj.fields["_value"]]
                     pv = obj.fields["previous_value"]
